@@ -1,23 +1,33 @@
 ------------------------------- MODULE Handoff -------------------------------
 (* C12 - the scheduler -> binder hand-off through BindRequest objects.
 
-   One node (one GPU, capacity Cap = 100 centi-GPU), a few pods that compete for it, one BindRequest
-   per pod (named after the pod, as cache.createBindRequest does).  The whole abstract state is ONE record
-   `S` so that the same pure operators (`CyclePosts`, `BinderPost`, ...) define the actions of the model and
-   the one-step predictions of the trace specification (HandoffTrace.tla).
+   One node with `gpus` GPU devices (each 100 centi-GPU), a few pods that compete for it, one BindRequest
+   per pod (named after the pod, as cache.createBindRequest does).  Pod kinds: whole GPU (req = 100),
+   fraction of one device (req < 100, nd = 1) and multi-device fraction (req < 100 on each of nd = 2 devices,
+   annotation gpu-fraction-num-devices).  GPU groups (the scheduler's name for a shared device) are abstract
+   slots 1..MaxSlot: `dev[p]` = BindRequest.spec.selectedGPUGroups, `lab[p]` = the runai-gpu-group labels on
+   the pod, which the binder writes ONE GROUP AT A TIME before it calls the binding sub-resource.
+   The whole abstract state is ONE record `S` so that the same pure operators (`CyclePosts`, `BinderRuns`,
+   ...) define the actions of the model and the one-step predictions of the trace specification.
 
    Code the actions are shaped after
      SchedCycle        framework.OpenSession -> SchedulerCache.Snapshot (cluster_info.Snapshot:
-                       snapshotBindRequests, GetBindRequestForPod/IsFailed, getTaskStatus, AddTasksToNode;
-                       then cleanStaleBindRequest) -> allocate action -> cache.Bind/createBindRequest
+                       snapshotBindRequests, GetBindRequestForPod/IsFailed, getTaskStatus,
+                       updatePodAdditionalFields (GPU groups of a pod with a BindRequest come from the request),
+                       AddTasksToNode / addSharedTaskResources; then cleanStaleBindRequest) -> allocate action
+                       -> cache.Bind/createBindRequest
      BinderAttempt     BindRequestReconciler.Reconcile incl. the deferred UpdateStatus, AS THE CODE DOES IT
-                       (constant PatchRule: "phase" = status is patched only when the phase changed - the
-                       code as found, candidate F2; "phase_or_attempts" = patched when phase or
-                       FailedAttempts changed - the repaired code)
+                       (constant PatchRule: "phase" = status patched only when the phase changed - the code
+                       before the F2 repair; "phase_or_attempts" = patched when phase or FailedAttempts changed).
+                       out = "ok" | "fail" (binding sub-resource fails, rollback removes the labels) |
+                       "faillabel" (multi-device pod: reserving the 2nd group fails after the 1st label was
+                       written and the rollback fails too: the label stays)
+     BinderCrashAfterLabel  the binder dies right after one label patch (nothing else reaches the store); restart
      BindDoneStatusLost the `binding` sub-resource succeeded but the BindRequest status patch was lost
      BinderRestart     binder process restart: every existing BindRequest is re-queued
-     NodeDeleted/NodeAdded, PodDeleted, GcBr (k8s garbage collector removes the BindRequest owned by a
-                       deleted pod)
+     NodeDeleted/NodeAdded, PodDeleted, GcBr (k8s garbage collector removes the BindRequest of a deleted pod)
+     StartDrain        from here on the environment is fault-free (resync of the binder's queue, then only
+                       successful reconciles, scheduler cycles and garbage collection): C12_Quiesces
    `q[p]` is the controller-runtime work queue: a key is queued by a create/update event of the BindRequest,
    by a returned error and by RequeueAfter > 0; only queued keys are reconciled.
    `att`, `fl` are ghost counters of the current BindRequest incarnation: calls of the binding sub-resource
@@ -25,23 +35,27 @@
 EXTENDS Integers, FiniteSets, Sequences, TLC, Json
 
 CONSTANTS Pods,          \* set of pod names (strings)
-          Cap,           \* capacity of the node's GPU in centi-GPU (100)
+          Cap,           \* capacity of one GPU device in centi-GPU (100)
           Limits,        \* set of backoffLimit values, -1 = nil
-          ReqSet,        \* set of functions Pods -> request in centi-GPU (100 = whole GPU, < 100 = fraction)
+          ShapeSet,      \* set of [gpus, req, nd]: devices of the node, request per device and devices per pod
           PresentSet,    \* set of subsets of Pods: which pods exist in the scenario
           PersistSet,    \* subset of BOOLEAN: TRUE = every bind attempt of the scenario fails (C12_Terminates)
           PatchRule,     \* "phase" | "phase_or_attempts"
+          AllowDrain,    \* BOOLEAN: StartDrain enabled
+          FreshAny,      \* BOOLEAN: a new GPU group may get any unreferenced slot (trace) / the smallest (model checking)
+          MaxSlot,
           MaxAtt,        \* saturation of the ghost counters
-          MaxRestarts, MaxFlips,
+          MaxRestarts, MaxFlips, MaxLeaks,
           MaxLevel       \* bound of the breadth-first level for the (optional) CONSTRAINT DepthBound
 
-VARIABLES S,     \* the abstract state (record, see Init)
+VARIABLES S,     \* the abstract state (record, see InitState)
           obs,   \* what the last step was and, after a SchedCycle, what the scheduler saw: pre-state + snapshot
           act    \* label of the last transition (hidden by VIEW; exported on the edges)
 vars == <<S, obs, act>>
 View == <<S, obs>>
 
 PatchRules == {"phase", "phase_or_attempts"}
+Slots == 1..MaxSlot
 NoObs == [k |-> "none"]
 NoBr(g) == [ex |-> FALSE, ph |-> "", fa |-> 0, gen |-> g]
 
@@ -51,12 +65,22 @@ Min(a, b) == IF a < b THEN a ELSE b
 Max(a, b) == IF a > b THEN a ELSE b
 Pow2(n) == IF n <= 0 THEN 1 ELSE IF n = 1 THEN 2 ELSE IF n = 2 THEN 4 ELSE IF n = 3 THEN 8 ELSE IF n = 4 THEN 16 ELSE 32
 Sat(n) == Min(n, MaxAtt)
+RECURSIVE SmallestN(_, _)
+SmallestN(T, n) == IF n = 0 \/ T = {} THEN {} ELSE LET m == CHOOSE m \in T : \A x \in T : m <= x IN {m} \cup SmallestN(T \ {m}, n - 1)
 
 (* ---- what "terminally failed" means (bindrequest_info.IsFailed) ------------------------------------- *)
 Terminal(b, L) == b.ex /\ b.ph = "Failed" /\ (L = -1 \/ b.fa >= L)
 Live(b, L) == b.ex /\ ~Terminal(b, L)
 LimPlus(L) == IF L = -1 THEN 0 ELSE L          \* cap of status.failedAttempts
 LimEff(L) == IF L < 1 THEN 1 ELSE L            \* a nil/0 limit still sees the one error-requeue of the first failure
+
+(* ---- device accounting, parameterised by the set of charged pods T and their groups G ------------------- *)
+IsFrac(s, p) == s.req[p] < Cap
+UsedBy(s, T, G(_, _), d) == SumOver(s.req, {p \in T : IsFrac(s, p) /\ d \in G(s, p)})
+SharedBy(s, T, G(_, _)) == {d \in Slots : UsedBy(s, T, G, d) > 0}
+WholeBy(s, T) == Cardinality({p \in T : ~IsFrac(s, p)})
+IdleWholeBy(s, T, G(_, _)) == s.gpus - Cardinality(SharedBy(s, T, G)) - WholeBy(s, T)
+IdleBy(s, T, G(_, _)) == Cap * IdleWholeBy(s, T, G) + SumOver([d \in Slots |-> Cap - UsedBy(s, T, G, d)], SharedBy(s, T, G))
 
 (* ---- the scheduler's snapshot of a state (cluster_info.Snapshot) -------------------------------------- *)
 StatusOf(s, p) == IF ~s.alive[p] THEN "None"
@@ -65,129 +89,186 @@ StatusOf(s, p) == IF ~s.alive[p] THEN "None"
                   ELSE "Pending"
 OnNode(s, p) == StatusOf(s, p) \in {"Bound", "Binding"}
 ChargedSet(s) == {p \in Pods : s.up /\ OnNode(s, p)}
-IdleOf(s) == IF s.up THEN Cap - SumOver(s.req, ChargedSet(s)) ELSE 0
+\* updatePodAdditionalFields: the groups of a pod whose BindRequest is in the snapshot's map come from the request
+InMap(s, p) == s.up /\ Live(s.br[p], s.lim)
+GroupsOf(s, p) == IF ~s.alive[p] THEN {} ELSE IF InMap(s, p) /\ s.dev[p] # {} THEN s.dev[p] ELSE s.lab[p]
 SnapOf(s) == [st |-> [p \in Pods |-> StatusOf(s, p)],
               on |-> [p \in Pods |-> OnNode(s, p)],
-              idle |-> IdleOf(s), node |-> s.up]
+              grp |-> [p \in Pods |-> GroupsOf(s, p)],
+              mem |-> [d \in Slots |-> IF s.up THEN UsedBy(s, ChargedSet(s), GroupsOf, d) ELSE 0],
+              whole |-> IF s.up THEN IdleWholeBy(s, ChargedSet(s), GroupsOf) ELSE 0,
+              idle |-> IF s.up THEN IdleBy(s, ChargedSet(s), GroupsOf) ELSE 0,
+              node |-> s.up]
 
 (* ---- SchedCycle ------------------------------------------------------------------------------------------ *)
 Stale(s) == {p \in Pods : s.br[p].ex /\ (~s.up \/ Terminal(s.br[p], s.lim))}
 PendingSet(s) == {p \in Pods : StatusOf(s, p) = "Pending"}
-Fits(s, T) == SumOver(s.req, T) <= IdleOf(s)
-\* the allocate action places pending pods greedily in its own order: any maximal fitting subset
-Choices(s) == IF ~s.up THEN {{}}
-              ELSE {T \in SUBSET PendingSet(s) : Fits(s, T) /\ \A p \in PendingSet(s) \ T : ~Fits(s, T \cup {p})}
-CyclePost(s, T) ==
-  [s EXCEPT !.br = [p \in Pods |-> IF p \in T THEN [ex |-> TRUE, ph |-> "", fa |-> 0, gen |-> 1 - s.br[p].gen]
-                                   ELSE IF p \in Stale(s) THEN NoBr(s.br[p].gen) ELSE s.br[p]],
-            !.q = [p \in Pods |-> IF p \in T THEN TRUE ELSE IF p \in Stale(s) THEN FALSE ELSE s.q[p]],
-            !.att = [p \in Pods |-> IF p \in T \cup Stale(s) THEN 0 ELSE s.att[p]],
-            !.fl = [p \in Pods |-> IF p \in T \cup Stale(s) THEN 0 ELSE s.fl[p]]]
-CyclePosts(s) == {CyclePost(s, T) : T \in Choices(s)}
+Referenced(s) == UNION {(IF s.br[p].ex THEN s.dev[p] ELSE {}) \cup (IF s.alive[p] THEN s.lab[p] ELSE {}) : p \in Pods}
+\* placements of a fractional pod: nd distinct devices, each one shared with room or a fresh device (a whole idle GPU)
+FracPlacements(s, p) ==
+  LET shared == SharedBy(s, ChargedSet(s), GroupsOf)
+      room == {d \in shared : UsedBy(s, ChargedSet(s), GroupsOf, d) + s.req[p] <= Cap}
+      unref == Slots \ Referenced(s)
+      idleWhole == IdleWholeBy(s, ChargedSet(s), GroupsOf)
+  IN UNION {
+       LET nfresh == s.nd[p] - Cardinality(R) IN
+       IF nfresh < 0 \/ nfresh > idleWhole \/ nfresh > Cardinality(unref) THEN {}
+       ELSE IF FreshAny THEN {R \cup F : F \in {F \in SUBSET unref : Cardinality(F) = nfresh}}
+       ELSE {R \cup SmallestN(unref, nfresh)}
+     : R \in SUBSET room }
+Placed(s, p, D) ==
+  [s EXCEPT !.br[p] = [ex |-> TRUE, ph |-> "", fa |-> 0, gen |-> 1 - s.br[p].gen],
+            !.dev[p] = D, !.q[p] = TRUE, !.att[p] = 0, !.fl[p] = 0]
+Place(s, p) == IF IsFrac(s, p) THEN {Placed(s, p, D) : D \in FracPlacements(s, p)}
+               ELSE IF IdleWholeBy(s, ChargedSet(s), GroupsOf) >= 1 THEN {Placed(s, p, {})} ELSE {}
+\* the allocate action tries the pending pods one after the other in its own order; a pod that fits is placed
+RECURSIVE Alloc(_, _)
+Alloc(s, P) == IF P = {} THEN {s}
+               ELSE UNION {IF Place(s, p) = {} THEN Alloc(s, P \ {p}) ELSE UNION {Alloc(t, P \ {p}) : t \in Place(s, p)} : p \in P}
+Cleaned(s) ==
+  [s EXCEPT !.br = [p \in Pods |-> IF p \in Stale(s) THEN NoBr(s.br[p].gen) ELSE s.br[p]],
+            !.dev = [p \in Pods |-> IF p \in Stale(s) THEN {} ELSE s.dev[p]],
+            !.q = [p \in Pods |-> IF p \in Stale(s) THEN FALSE ELSE s.q[p]],
+            !.att = [p \in Pods |-> IF p \in Stale(s) THEN 0 ELSE s.att[p]],
+            !.fl = [p \in Pods |-> IF p \in Stale(s) THEN 0 ELSE s.fl[p]]]
+CyclePosts(s) == IF ~s.up THEN {Cleaned(s)} ELSE Alloc(Cleaned(s), PendingSet(s))
 
-(* ---- one reconcile of the BindRequest of p; `out` = what the binding sub-resource does if it is called --- *)
-BinderRun(s, p, out, rule) ==
+(* ---- one reconcile of the BindRequest of p; `out` = the injected fault ---------------------------------- *)
+Reach(s, p) == s.br[p].ex /\ s.br[p].ph # "Succeeded" /\ s.alive[p] /\ ~s.bound[p] /\ s.up
+\* the label patch of group d (the reservation step drops labels of groups the request does not select)
+Labelled(s, p, d) == IF s.nd[p] = 1 THEN {d} ELSE (s.lab[p] \cap s.dev[p]) \cup {d}
+BinderRuns(s, p, out, rule) ==
   LET b == s.br[p] IN
   IF ~b.ex \/ b.ph = "Succeeded"
-  THEN [post |-> [s EXCEPT !.q[p] = FALSE], err |-> FALSE, rq |-> 0, bind |-> FALSE]
+  THEN {[post |-> [s EXCEPT !.q[p] = FALSE], err |-> FALSE, rq |-> 0, bind |-> FALSE]}
   ELSE
-    LET bindCalled == s.alive[p] /\ ~s.bound[p] /\ s.up
+    LET reach == Reach(s, p)
+        leak == reach /\ out = "faillabel" /\ IsFrac(s, p) /\ s.nd[p] = 2
+        bindCalled == reach /\ ~leak
         errc == IF ~s.alive[p] THEN TRUE          \* Get pod: NotFound
                 ELSE IF s.bound[p] THEN FALSE     \* pod already bound: success without binding
                 ELSE IF ~s.up THEN TRUE           \* Get node: NotFound
-                ELSE out = "fail"
+                ELSE out # "ok"
         \* UpdateStatus
         inc == errc /\ s.lim # -1 /\ s.lim > b.fa
         faN == IF inc THEN b.fa + 1 ELSE b.fa
         phN == IF errc THEN "Failed" ELSE "Succeeded"
         changed == phN # b.ph \/ (rule = "phase_or_attempts" /\ faN # b.fa)   \* else: early return, nothing patched, error swallowed
         bN == IF changed THEN [b EXCEPT !.ph = phN, !.fa = faN] ELSE b
-    IN [post |-> [s EXCEPT !.br[p] = bN,
-                           !.bound[p] = s.bound[p] \/ (bindCalled /\ ~errc),
-                           !.att[p] = IF bindCalled THEN Sat(s.att[p] + 1) ELSE s.att[p],
-                           !.fl[p] = IF errc THEN Sat(s.fl[p] + 1) ELSE s.fl[p],
-                           !.q[p] = changed \/ inc],        \* update event | returned error | RequeueAfter
-        err |-> changed /\ errc, rq |-> IF inc THEN Pow2(b.fa) ELSE 0, bind |-> bindCalled]
-BinderPost(s, p, out, rule) == BinderRun(s, p, out, rule).post
+        labs == IF ~reach \/ ~IsFrac(s, p) THEN {s.lab[p]}
+                ELSE IF leak THEN {Labelled(s, p, d) : d \in s.dev[p]}     \* one label written, rollback failed
+                ELSE IF errc THEN {{}}                                      \* rollback removed the group labels
+                ELSE {s.dev[p]}                                             \* every selected group labelled, then bound
+    IN {[post |-> [s EXCEPT !.br[p] = bN,
+                            !.lab[p] = L,
+                            !.leaks = IF leak THEN s.leaks + 1 ELSE s.leaks,
+                            !.bound[p] = s.bound[p] \/ (bindCalled /\ ~errc),
+                            !.att[p] = IF bindCalled THEN Sat(s.att[p] + 1) ELSE s.att[p],
+                            !.fl[p] = IF errc THEN Sat(s.fl[p] + 1) ELSE s.fl[p],
+                            !.q[p] = changed \/ inc],        \* update event | returned error | RequeueAfter
+         err |-> changed /\ errc, rq |-> IF inc THEN Pow2(b.fa) ELSE 0, bind |-> bindCalled] : L \in labs}
 
-StatusLostEnabled(s, p) == s.q[p] /\ s.br[p].ex /\ s.br[p].ph # "Succeeded" /\ s.alive[p] /\ ~s.bound[p] /\ s.up
-StatusLostPost(s, p) == [s EXCEPT !.bound[p] = TRUE, !.att[p] = Sat(s.att[p] + 1), !.q[p] = FALSE]
+StatusLostEnabled(s, p) == s.q[p] /\ Reach(s, p)
+StatusLostPost(s, p) == [s EXCEPT !.bound[p] = TRUE, !.att[p] = Sat(s.att[p] + 1), !.q[p] = FALSE,
+                                  !.lab[p] = IF IsFrac(s, p) THEN s.dev[p] ELSE s.lab[p]]
 RestartPost(s) == [s EXCEPT !.q = [p \in Pods |-> s.br[p].ex], !.restarts = s.restarts + 1]
-GcPost(s, p) == [s EXCEPT !.br[p] = NoBr(s.br[p].gen), !.q[p] = FALSE, !.att[p] = 0, !.fl[p] = 0]
+CrashEnabled(s, p) == s.q[p] /\ Reach(s, p) /\ IsFrac(s, p) /\ s.dev[p] \ s.lab[p] # {}
+CrashPosts(s, p) == {[RestartPost(s) EXCEPT !.lab[p] = Labelled(s, p, d)] : d \in s.dev[p] \ s.lab[p]}
+GcPost(s, p) == [s EXCEPT !.br[p] = NoBr(s.br[p].gen), !.dev[p] = {}, !.q[p] = FALSE, !.att[p] = 0, !.fl[p] = 0]
+PodDeletedPost(s, p) == [s EXCEPT !.alive[p] = FALSE, !.bound[p] = FALSE, !.lab[p] = {}]
+DrainPost(s) == [RestartPost(s) EXCEPT !.drain = TRUE]
 
 (* ---- the model -------------------------------------------------------------------------------------------- *)
-InitState(L, r, present, persist) ==
-  [lim |-> L, req |-> r, persist |-> persist, up |-> TRUE, flips |-> 0, restarts |-> 0,
+InitState(L, sh, present, persist) ==
+  [lim |-> L, gpus |-> sh.gpus, req |-> sh.req, nd |-> sh.nd, persist |-> persist, drain |-> FALSE,
+   up |-> TRUE, flips |-> 0, restarts |-> 0, leaks |-> 0,
    alive |-> [p \in Pods |-> p \in present], bound |-> [p \in Pods |-> FALSE],
-   br |-> [p \in Pods |-> NoBr(0)], q |-> [p \in Pods |-> FALSE],
-   att |-> [p \in Pods |-> 0], fl |-> [p \in Pods |-> 0]]
+   br |-> [p \in Pods |-> NoBr(0)], dev |-> [p \in Pods |-> {}], lab |-> [p \in Pods |-> {}],
+   q |-> [p \in Pods |-> FALSE], att |-> [p \in Pods |-> 0], fl |-> [p \in Pods |-> 0]]
 
-Init == /\ \E L \in Limits, r \in ReqSet, present \in PresentSet, persist \in PersistSet : S = InitState(L, r, present, persist)
-        /\ obs = NoObs /\ act = [n |-> "Init", p |-> "", out |-> ""]
+NoAct(n, p, out) == [n |-> n, p |-> p, out |-> out]
+Init == /\ \E L \in Limits, sh \in ShapeSet, present \in PresentSet, persist \in PersistSet : S = InitState(L, sh, present, persist)
+        /\ obs = NoObs /\ act = NoAct("Init", "", "")
 
 SchedCycle ==
   /\ \E post \in CyclePosts(S) : S' = post
   /\ obs' = [k |-> "cycle", pre |-> S, snap |-> SnapOf(S)]
-  /\ act' = [n |-> "SchedCycle", p |-> "", out |-> ""]
+  /\ act' = NoAct("SchedCycle", "", "")
 
 BinderAttempt(p, out) ==
   /\ S.q[p]
-  /\ S.persist => out = "fail"
-  \* canonical label: `out` only matters when the binding sub-resource is reached
-  /\ (~(S.br[p].ex /\ S.br[p].ph # "Succeeded" /\ S.alive[p] /\ ~S.bound[p] /\ S.up)) => out = "ok" \/ S.persist
-  /\ S' = BinderPost(S, p, out, PatchRule)
-  /\ obs' = NoObs /\ act' = [n |-> "BinderAttempt", p |-> p, out |-> out]
+  /\ S.persist => out # "ok"
+  /\ S.drain => out = "ok"
+  \* canonical label: `out` only matters when the binder gets as far as reserving/binding
+  /\ ~Reach(S, p) => out = (IF S.persist THEN "fail" ELSE "ok")
+  /\ out = "faillabel" => Reach(S, p) /\ IsFrac(S, p) /\ S.nd[p] = 2 /\ S.leaks < MaxLeaks
+  /\ \E r \in BinderRuns(S, p, out, PatchRule) : S' = r.post
+  /\ obs' = NoObs /\ act' = NoAct("BinderAttempt", p, out)
 
 BindDoneStatusLost(p) ==
-  /\ ~S.persist /\ StatusLostEnabled(S, p)
+  /\ ~S.persist /\ ~S.drain /\ StatusLostEnabled(S, p)
   /\ S' = StatusLostPost(S, p)
-  /\ obs' = NoObs /\ act' = [n |-> "BindDoneStatusLost", p |-> p, out |-> ""]
+  /\ obs' = NoObs /\ act' = NoAct("BindDoneStatusLost", p, "")
+
+BinderCrashAfterLabel(p) ==
+  /\ ~S.persist /\ ~S.drain /\ S.restarts < MaxRestarts /\ CrashEnabled(S, p)
+  /\ \E t \in CrashPosts(S, p) : S' = t
+  /\ obs' = NoObs /\ act' = NoAct("BinderCrashAfterLabel", p, "")
 
 BinderRestart ==
-  /\ S.restarts < MaxRestarts /\ \E p \in Pods : S.br[p].ex /\ ~S.q[p]
+  /\ ~S.drain /\ S.restarts < MaxRestarts /\ \E p \in Pods : S.br[p].ex /\ ~S.q[p]
   /\ S' = RestartPost(S)
-  /\ obs' = NoObs /\ act' = [n |-> "BinderRestart", p |-> "", out |-> ""]
+  /\ obs' = NoObs /\ act' = NoAct("BinderRestart", "", "")
 
 NodeDeleted ==
-  /\ S.up /\ S.flips < MaxFlips
+  /\ ~S.drain /\ S.up /\ S.flips < MaxFlips
   /\ S' = [S EXCEPT !.up = FALSE, !.flips = S.flips + 1]
-  /\ obs' = NoObs /\ act' = [n |-> "NodeDeleted", p |-> "", out |-> ""]
+  /\ obs' = NoObs /\ act' = NoAct("NodeDeleted", "", "")
 
 NodeAdded ==
-  /\ ~S.up /\ S.flips < MaxFlips
+  /\ ~S.drain /\ ~S.up /\ S.flips < MaxFlips
   /\ S' = [S EXCEPT !.up = TRUE, !.flips = S.flips + 1]
-  /\ obs' = NoObs /\ act' = [n |-> "NodeAdded", p |-> "", out |-> ""]
+  /\ obs' = NoObs /\ act' = NoAct("NodeAdded", "", "")
 
 PodDeleted(p) ==
-  /\ S.alive[p]
-  /\ S' = [S EXCEPT !.alive[p] = FALSE, !.bound[p] = FALSE]
-  /\ obs' = NoObs /\ act' = [n |-> "PodDeleted", p |-> p, out |-> ""]
+  /\ ~S.drain /\ S.alive[p]
+  /\ S' = PodDeletedPost(S, p)
+  /\ obs' = NoObs /\ act' = NoAct("PodDeleted", p, "")
 
 GcBr(p) ==
   /\ S.br[p].ex /\ ~S.alive[p]
   /\ S' = GcPost(S, p)
-  /\ obs' = NoObs /\ act' = [n |-> "GcBr", p |-> p, out |-> ""]
+  /\ obs' = NoObs /\ act' = NoAct("GcBr", p, "")
 
-BinderStep(p) == \E out \in {"ok", "fail"} : BinderAttempt(p, out)
-Next == \/ SchedCycle \/ BinderRestart \/ NodeDeleted \/ NodeAdded
-        \/ \E p \in Pods : BinderStep(p) \/ BindDoneStatusLost(p) \/ PodDeleted(p) \/ GcBr(p)
+StartDrain ==
+  /\ AllowDrain /\ ~S.drain /\ ~S.persist
+  /\ S' = DrainPost(S)
+  /\ obs' = NoObs /\ act' = NoAct("StartDrain", "", "")
+
+BinderStep(p) == \E out \in {"ok", "fail", "faillabel"} : BinderAttempt(p, out)
+Next == \/ SchedCycle \/ BinderRestart \/ NodeDeleted \/ NodeAdded \/ StartDrain
+        \/ \E p \in Pods : BinderStep(p) \/ BindDoneStatusLost(p) \/ BinderCrashAfterLabel(p) \/ PodDeleted(p) \/ GcBr(p)
 
 Spec == Init /\ [][Next]_vars
-FairSpec == Spec /\ \A p \in Pods : WF_vars(BinderStep(p))
+FairSpec == Spec /\ WF_vars(SchedCycle) /\ \A p \in Pods : WF_vars(BinderStep(p)) /\ WF_vars(GcBr(p))
 
 (* ---- types ------------------------------------------------------------------------------------------------- *)
 BrType == [ex : BOOLEAN, ph : {"", "Failed", "Succeeded"}, fa : 0..MaxAtt, gen : {0, 1}]
 TypeOK ==
-  /\ S.lim \in Limits /\ S.req \in ReqSet /\ S.persist \in BOOLEAN /\ S.up \in BOOLEAN
-  /\ S.flips \in 0..MaxFlips /\ S.restarts \in 0..MaxRestarts
+  /\ S.lim \in Limits /\ [gpus |-> S.gpus, req |-> S.req, nd |-> S.nd] \in ShapeSet
+  /\ S.persist \in BOOLEAN /\ S.drain \in BOOLEAN /\ S.up \in BOOLEAN
+  /\ S.flips \in 0..MaxFlips /\ S.restarts \in 0..(MaxRestarts + 1) /\ S.leaks \in 0..MaxLeaks
   /\ S.alive \in [Pods -> BOOLEAN] /\ S.bound \in [Pods -> BOOLEAN] /\ S.q \in [Pods -> BOOLEAN]
   /\ S.br \in [Pods -> BrType]
+  /\ S.dev \in [Pods -> SUBSET Slots] /\ S.lab \in [Pods -> SUBSET Slots]
   /\ S.att \in [Pods -> 0..MaxAtt] /\ S.fl \in [Pods -> 0..MaxAtt]
   /\ obs.k \in {"none", "cycle"}
 
 (* ---- C12: property predicates (state predicates over S and obs; HandoffTrace binds S/obs to the real values) *)
-\* capacity promised on the node by a state: bound pods and pods with a live BindRequest
+\* what a state promises on the node: bound pods and pods with a live BindRequest, with the groups of the
+\* request while it lives (declarative truth, written without the snapshot's status logic)
 Promised(s) == {p \in Pods : s.alive[p] /\ (s.bound[p] \/ Live(s.br[p], s.lim))}
+TruthGroups(s, p) == IF Live(s.br[p], s.lim) /\ s.dev[p] # {} THEN s.dev[p] ELSE s.lab[p]
 
 \* every snapshot charges the pod of a live BindRequest to the selected node ...
 C12_Charged ==
@@ -195,9 +276,20 @@ C12_Charged ==
     LET pre == obs.pre  snap == obs.snap IN
     /\ \A p \in Pods : (pre.alive[p] /\ ~pre.bound[p] /\ pre.up /\ Live(pre.br[p], pre.lim))
                          => snap.st[p] = "Binding" /\ snap.on[p]
-    /\ pre.up => snap.idle = Cap - SumOver(pre.req, Promised(pre)) /\ snap.idle >= 0
+    /\ pre.up => snap.idle = IdleBy(pre, Promised(pre), TruthGroups) /\ snap.idle >= 0
+\* ... including its GPU groups: the pod holds exactly the groups its request selected, every group is charged
+\* the memory of the pods that hold it, and a device that carries a group is not idle
+C12_ChargedGroups ==
+  obs.k = "cycle" =>
+    LET pre == obs.pre  snap == obs.snap IN
+    pre.up =>
+      /\ \A p \in Pods : (pre.alive[p] /\ Live(pre.br[p], pre.lim) /\ IsFrac(pre, p)) => snap.grp[p] = pre.dev[p]
+      /\ \A d \in Slots : snap.mem[d] = UsedBy(pre, Promised(pre), TruthGroups, d)
+      /\ snap.whole = IdleWholeBy(pre, Promised(pre), TruthGroups)
 \* ... so no later cycle hands the capacity out again
-C12_NoDoubleBooking == S.up => SumOver(S.req, Promised(S)) <= Cap
+C12_NoDoubleBooking ==
+  S.up => /\ \A d \in Slots : UsedBy(S, Promised(S), TruthGroups, d) <= Cap
+          /\ IdleWholeBy(S, Promised(S), TruthGroups) >= 0
 
 \* a request for a deleted node is deleted by the next cycle and its pod is schedulable (Pending) again
 C12_DeletedNode ==
@@ -227,12 +319,21 @@ C12_FailedObservable ==
   \A p \in Pods : (S.br[p].ex /\ S.br[p].ph # "Succeeded" /\ S.fl[p] >= 1 /\ S.fl[p] >= LimPlus(S.lim))
                     => Terminal(S.br[p], S.lim)
 
+\* the hand-off has come to rest in a good state: nothing queued, every request gone or Succeeded with its pod
+\* bound, no pod left Binding, and every unbound pod is unbound because it does not fit
+Quiescent(s) ==
+  /\ \A p \in Pods : /\ ~s.q[p]
+                     /\ s.br[p].ex => s.br[p].ph = "Succeeded" /\ s.bound[p] /\ s.alive[p]
+  /\ s.up => \A p \in Pods : (s.alive[p] /\ ~s.bound[p]) => Place(s, p) = {}
+
 \* temporal: under persistent failure every request becomes observably failed (or disappears)
 Unsettled(p) == S.br[p].ex /\ S.br[p].ph # "Succeeded" /\ ~Terminal(S.br[p], S.lim)
 C12_Terminates == \A p \in Pods : (S.persist /\ Unsettled(p)) ~> ~Unsettled(p)
-
-DepthBound == TLCGet("level") <= MaxLevel
+\* temporal: once the environment is fault-free the hand-off quiesces (a later fault-free attempt succeeds)
+C12_QuiescesEventually == S.drain ~> Quiescent(S)
 
 (* ---- export of the labelled transition graph (direction A) ------------------------------------------------ *)
+DepthBound == TLCGet("level") <= MaxLevel
+
 Edge == PrintT("EDGE " \o ToJson([a |-> act', s |-> S, t |-> S']))
 =============================================================================
